@@ -284,9 +284,17 @@ pub fn step_bool(s: &mut Mach, ins: &Instr, model: &mut Model, ctx: &mut RunCtx)
                 let stride = if total > 256 { total / 256 } else { 1 };
                 let mut a_idx = 0;
                 while a_idx < total {
-                    let got = f.eval((0..n).map(|v| (v, a_idx >> v & 1 == 1)));
+                    // documented: the order of the pairs is irrelevant, and if a variable is given
+                    // several times the last value counts. Shapes by assignment index: ascending;
+                    // descending; every variable first with the opposite, then with the real value
+                    let real = |v: u32| (v, a_idx >> v & 1 == 1);
+                    let got = match a_idx % 3 {
+                        0 => f.eval((0..n).map(real)),
+                        1 => f.eval((0..n).rev().map(real)),
+                        _ => f.eval((0..n).map(|v| (v, a_idx >> v & 1 == 0)).chain((0..n).rev().map(real))),
+                    };
                     if got != t.get(a_idx) {
-                        ctx.violate(&["C02"], "eval", format!("eval(r{} = {}, assignment {:b}) = {}", a, t.hex(), a_idx, got));
+                        ctx.violate(&["C02"], "eval", format!("eval(r{} = {}, assignment {:b}, argument shape {}) = {}", a, t.hex(), a_idx, a_idx % 3, got));
                         break;
                     }
                     a_idx += stride;
